@@ -13,8 +13,8 @@ RULE = (
     "Kleene evaluation gives X, otherwise n carries the Kleene value. non-trivial = >=2 inputs and >=1 multi-input gate; distinct = canonical circuit"
 )
 BUDGET = {
-    "quick": {"workers": 16, "cases": 90, "secs": 45, "min_cases": 700},
-    "thorough": {"workers": 16, "rounds": 4, "cases": 350, "secs": 240, "min_cases": 6000},
+    "quick": {"workers": 16, "cases": 600, "secs": 60, "min_cases": 4800},
+    "thorough": {"workers": 16, "rounds": 4, "cases": 1600, "secs": 420, "min_cases": 51200},
 }
 ANCHORS = ["tx:ternary"]
 
